@@ -205,6 +205,7 @@ static void fill(CdnsBlock& b, int content, const Pools& P) {
           RR r0 = b.get_rr(0); b.m_rr.add_value(r0); RR r9; r9.name_index = 0; r9.classtype_index = 0; r9.ttl = 99999; b.add_rr(r9);
           QueryResponseSignature s0 = b.get_qr_signature(0); b.m_qr_sig.add_value(s0); QueryResponseSignature s9; s9.server_port = 9999; b.add_qr_signature(s9); }
         break;
+    case 7:   // as 5, but the source block is default-constructed: it has no explicit block-parameters index (see mk_block)
     case 5: // table entries and statistics but no record (an application fills tables first; get_item_count() is 0)
         b.add_ip_address("only-table-1"); b.add_ip_address("only-table-2"); b.add_name_rdata("only-name"); { ClassType c; c.type = 28; c.class_ = 1; b.add_classtype(c); Question q; q.name_index = 0; q.classtype_index = 0; b.add_question(q); RR r; r.name_index = 0; r.classtype_index = 0; r.ttl = 5; b.add_rr(r);
           QueryResponseSignature s; s.server_port = 53; b.add_qr_signature(s); MalformedMessageData m; m.server_port = 54; m.mm_payload = std::string("pl"); b.add_malformed_message_data(m); b.add_question_list({0}); b.add_rr_list({0}); }
@@ -215,6 +216,7 @@ static void fill(CdnsBlock& b, int content, const Pools& P) {
                 b.add_question_response_record(q); GenericMalformedMessage m = P.mm[0]; m.server_port = i; b.add_malformed_message(m); } break;
     }
 }
+static CdnsBlock* mk_block(int content, BlockParameters& bp) { return content == 7 ? new CdnsBlock() : new CdnsBlock(bp, 0); }
 static void refill_different(CdnsBlock& b) { for (int i = 0; i < 40; i++) { b.add_ip_address("other" + std::to_string(i)); b.add_name_rdata("othername" + std::to_string(i)); ClassType c; c.type = 9000 + i; c.class_ = 3; b.add_classtype(c); RR r; r.name_index = i; r.classtype_index = i; b.add_rr(r); Question q; q.name_index = i; q.classtype_index = i; b.add_question(q);
     QueryResponseSignature s; s.server_port = 7000 + i; b.add_qr_signature(s); MalformedMessageData m; m.server_port = 7000 + i; b.add_malformed_message_data(m); b.add_question_list({(index_t)i}); b.add_rr_list({(index_t)i, 0}); } }
 
@@ -268,15 +270,15 @@ static void run_copy(int content, int way, int fate, const std::vector<int>& ops
     std::string tag = std::string(WN[way]) + "|" + FN[fate];
     std::vector<std::string> obs_copy, obs_fresh; std::string src_before, src_after;
     if (way <= W_MOVE_ASSIGN) {
-        std::unique_ptr<CdnsBlock> src(new CdnsBlock(bp, 0)); fill(*src, content, P);
+        std::unique_ptr<CdnsBlock> src(mk_block(content, bp)); fill(*src, content, P);
         std::string src_pre = ser(*src);
         std::unique_ptr<CdnsBlock> cp;
         switch (way) {
         case W_COPY_CTOR: cp.reset(new CdnsBlock(*src)); break; case W_MOVE_CTOR: cp.reset(new CdnsBlock(std::move(*src))); break;
         // the target of an assignment already holds a block with the SAME parameters index but other parameters (tick rate, block size, hints)
         // ... and statistics of its own, an address event and a malformed message: everything the target held must be gone afterwards
-        case W_COPY_ASSIGN: cp.reset(new CdnsBlock(bp_other, 0)); cp->add_ip_address("to-be-overwritten"); cp->add_question_response_record(P.qr[4], P.stats[1]); cp->add_address_event_count(P.aec[2]); *cp = *src; break;
-        case W_MOVE_ASSIGN: cp.reset(new CdnsBlock(bp_other, 0)); cp->add_name_rdata("to-be-overwritten"); cp->add_malformed_message(P.mm[0], P.stats[2]); cp->add_address_event_count(P.aec[2]); *cp = std::move(*src); break;
+        case W_COPY_ASSIGN: cp.reset(new CdnsBlock(bp_other, fate % 2));   // same index as the source (other parameters) or another explicit index cp->add_ip_address("to-be-overwritten"); cp->add_question_response_record(P.qr[4], P.stats[1]); cp->add_address_event_count(P.aec[2]); *cp = *src; break;
+        case W_MOVE_ASSIGN: cp.reset(new CdnsBlock(bp_other, (fate + 1) % 2)); cp->add_name_rdata("to-be-overwritten"); cp->add_malformed_message(P.mm[0], P.stats[2]); cp->add_address_event_count(P.aec[2]); *cp = std::move(*src); break;
         }
         if (fate == F_KEPT && (way == W_COPY_CTOR || way == W_COPY_ASSIGN)) { CdnsBlock& alias = *cp; *cp = alias; }   // self-assignment keeps the value
         if ((way == W_COPY_CTOR || way == W_COPY_ASSIGN) && ser(*src) != src_pre) out.push_back({tag + "|copying-changed-the-source", "the source block serialises differently after it was copied"});
@@ -285,7 +287,7 @@ static void run_copy(int content, int way, int fate, const std::vector<int>& ops
         case F_CLEARED: src->clear(); break; case F_REFILLED: src->clear(); refill_different(*src); break; case F_DESTROYED: src.reset(); break;
         }
         if (src) src_before = ser(*src);
-        std::unique_ptr<CdnsBlock> fresh(new CdnsBlock(bp, 0)); fill(*fresh, content, P);
+        std::unique_ptr<CdnsBlock> fresh(mk_block(content, bp)); fill(*fresh, content, P);
         obs_copy.push_back(ser(*cp)); obs_fresh.push_back(ser(*fresh));
         for (int op : ops) { obs_copy.push_back(c_apply(op, *cp, P, nullptr)); obs_fresh.push_back(c_apply(op, *fresh, P, nullptr)); R.count("transitions", 2); }
         obs_copy.push_back(ser(*cp)); obs_fresh.push_back(ser(*fresh));
@@ -447,7 +449,7 @@ int main(int argc, char** argv) {
                    [&](uint64_t, const std::string& d, Result& R) { auto k = crash_key(d); R.violation(std::string("copy|") + WN[atoi(kv["way"].c_str())] + "|" + FN[atoi(kv["fate"].c_str())] + "|" + k, d.substr(0, 2000), s); }, total); return done(total.viol.empty() ? 0 : 1); }
         struct Task { int content, way, fate, o1; };
         std::vector<Task> tasks;
-        for (int c = 0; c < 7; c++) for (int w = 0; w < W_N; w++) for (int f = 0; f < F_N; f++) { if (w == W_READER_ASSIGN && !(f == F_KEPT || f == F_DESTROYED)) continue; for (int o = -1; o < C_N; o++) tasks.push_back({c, w, f, o}); }
+        for (int c = 0; c < 8; c++) for (int w = 0; w < W_N; w++) for (int f = 0; f < F_N; f++) { if (w == W_READER_ASSIGN && !(f == F_KEPT || f == F_DESTROYED)) continue; for (int o = -1; o < C_N; o++) tasks.push_back({c, w, f, o}); }
         int D = T ? 3 : 2;
         Pool pool(a.jobs, 300);
         pool.run(tasks.size(), [&](uint64_t ti, Result& R) {
